@@ -277,6 +277,13 @@ static void dump_tx(runctx *x, txrec *t) {
                 hb_puts(b, ",\"ct\":"); hb_json_bstr(b, p->content_type);
                 hb_puts(b, ",\"filename\":"); hb_json_bstr(b, p->file ? p->file->filename : NULL);
                 hb_printf(b, ",\"file_len\":%lld", p->file ? (long long) p->file->len : -1LL);
+                if (p->file && p->file->tmpname) {
+                    /* the file as extracted to disk (it exists until the part is destroyed): length and content hash */
+                    uint64_t dh = 0xcbf29ce484222325ULL; long long dl = -1;
+                    FILE *ef = fopen(p->file->tmpname, "rb");
+                    if (ef) { char eb[4096]; size_t en; dl = 0; while ((en = fread(eb, 1, sizeof eb, ef)) > 0) { dh = hx_hash(eb, en, dh); dl += (long long) en; } fclose(ef); }
+                    hb_printf(b, ",\"disk\":[%lld,\"%016llx\"]", dl, (unsigned long long) dh);
+                }
                 hb_puts(b, ",\"headers\":"); dump_headers(b, p->headers);
                 hb_puts(b, "}");
             }
@@ -1142,6 +1149,13 @@ done:
     hxa_counting = 0;
     r->live_blocks_after = hxa_live_blocks - base_blocks;
     hxa_live_blocks = base_blocks;
+    {
+        extern __thread int hxa_bad_close, hxa_fds_open;
+        CHECK(x);
+        if (hxa_bad_close) viol(x, "C01", "close_of_unowned_descriptor", "the library closed %d file descriptor(s) it does not hold (closed twice, or never opened by it)", hxa_bad_close);
+        if (hxa_fds_open > 0 && hxa_fail_at == 0) viol(x, "C01", "descriptor_leak", "%d file descriptor(s) opened by the library are still open after teardown", hxa_fds_open);
+        hxa_bad_close = 0; hxa_fds_open = 0;
+    }
     if (r->live_blocks_after != 0 && hxa_fail_at == 0) {
         CHECK(x);
         viol(x, "C01", "leak", "%lld library allocations still live after htp_connp_destroy_all + htp_config_destroy", (long long) r->live_blocks_after);
